@@ -158,3 +158,109 @@ Proof.
       unfold fields_of_matches in H. rewrite Et in *. apply H. discriminate. }
     rewrite Hs, split_byte, split_intercalate by assumption. reflexivity.
 Qed.
+
+(** ---------- the value-level meaning of one record under plain options *)
+Definition rep_of (o : opt) (d : byte) : bytes := match o_replace o with Some nd => nd | None => [d] end.
+
+Fixpoint spec_items (fs : list bytes) (generic : option bytes) (join : bool) (rep : bytes)
+         (its : list bof) : option bytes :=
+  match its with
+  | [] => Some []
+  | Filler f :: r => option_map (app f) (spec_items fs generic join rep r)
+  | Bound b :: r =>
+      match (match try_into_range b (length fs) with
+             | Some (s, e) => Some (intercalate rep (firstn (e - s) (skipn s fs)))
+             | None => fallback_for b generic
+             end) with
+      | None => None
+      | Some p =>
+          option_map (fun t => p ++ (if join && negb (blast b) then rep else []) ++ t)
+                     (spec_items fs generic join rep r)
+      end
+  end.
+
+Definition plain_opts (o : opt) (d : byte) : Prop :=
+  o_delim o = [d] /\ o_regex o = None /\ o_json o = false /\ o_btype o = BFields
+  /\ o_complement o = false /\ o_greedy o = false /\ o_compress o = false.
+
+Lemma lit_matches_byte d line : lit_matches [d] line = map dup1 (positions_from d 0 line).
+Proof. unfold lit_matches, find_iter. rewrite find_iter_byte. reflexivity. Qed.
+
+Lemma pieces_length line rs : length (pieces line rs) = length rs.
+Proof. unfold pieces. apply map_length. Qed.
+
+Lemma firstn_skipn_dfree {A} (P : A -> Prop) (l : list A) a b : Forall P l -> Forall P (firstn a (skipn b l)).
+Proof.
+  intros H. apply Forall_forall. intros x Hx. rewrite Forall_forall in H. apply H.
+  eapply in_skipn, in_firstn, Hx.
+Qed.
+
+Lemma out_loop_plain o d line its :
+  plain_opts o d -> line <> [] -> Forall item_nz its ->
+  let fields := gaps_from 0 (map dup1 (positions_from d 0 line)) (length line) in
+  out_loop o line fields its
+  = match spec_items (split_on d line) (o_fallback o) (o_join o) (rep_of o d) its with
+    | Some x => ROk x
+    | None => RErr
+    end.
+Proof.
+  intros [Hd [Hx [Hj [Hb [Hc [Hg Hp]]]]]] Hl Hnz fields.
+  assert (Hfs : pieces line fields = split_on d line).
+  { unfold fields. pose proof (scan_ranges_split [d] line ltac:(discriminate) Hl) as H.
+    unfold fields_of_matches in H. rewrite lit_matches_byte in H. destruct line as [|c l]; [contradiction|].
+    rewrite <- split_byte. exact H. }
+  assert (Hlen : length fields = length (split_on d line)) by (rewrite <- Hfs, pieces_length; reflexivity).
+  assert (Hdp : dpos line d 0 (positions_from d 0 line)) by apply (positions_dpos d line []).
+  assert (HEP : forall t, emit_part o t = Some t) by (intros t; unfold emit_part; rewrite Hj; reflexivity).
+  induction its as [|x its IH]; [reflexivity|].
+  inversion Hnz as [|? ? Hx0 Hnz']; subst. specialize (IH Hnz').
+  destruct x as [b|f]; cbn [out_loop spec_items].
+  - rewrite Hlen.
+    destruct (try_into_range b (length (split_on d line))) as [[s e]|] eqn:E.
+    + destruct (try_into_range_some b _ s e Hx0 E) as [_ [_ [_ Hse]]].
+      unfold range_start, range_end.
+      destruct (nth_error fields s) as [a|] eqn:Ea.
+      2:{ apply nth_error_None in Ea. lia. }
+      destruct (nth_error fields (e - 1)) as [z|] eqn:Ez.
+      2:{ apply nth_error_None in Ez. lia. }
+      assert (W : wf_ms 0 (map dup1 (positions_from d 0 line)) (length line)).
+      { rewrite <- lit_matches_byte. apply lit_matches_wf. }
+      destruct (gaps_mono _ _ 0 s (e - 1) a z W ltac:(lia) Ea Ez) as [_ [P2 P3]].
+      assert (G1 : (fst a <=? snd z) = true) by (apply Nat.leb_le; exact P2).
+      assert (G2 : (snd z <=? length line) = true) by (apply Nat.leb_le; exact P3).
+      rewrite G1, G2. cbn [andb].
+      rewrite (range_slice line d _ 0 s e a z Hdp ltac:(lia) Ea Ez).
+      fold fields. rewrite Hfs.
+      set (sub := firstn (e - s) (skipn s (split_on d line))).
+      assert (Hsub_ne : sub <> []).
+      { unfold sub. intros H0. apply (f_equal (@length _)) in H0. rewrite firstn_length, skipn_length in H0. cbn in H0. lia. }
+      assert (Hsub_free : Forall (dfree d) sub) by (unfold sub; apply firstn_skipn_dfree, split_on_dfree).
+      assert (HMR : maybe_replace o (intercalate [d] sub) = Some (intercalate (rep_of o d) sub)).
+      { unfold maybe_replace, rep_of. rewrite Hb, Hx. destruct (o_replace o) as [nd|]; [|reflexivity].
+        rewrite Hd. f_equal. apply replace_joined; assumption. }
+      rewrite HMR, HEP, IH. unfold rep_of. rewrite Hd.
+      destruct (spec_items (split_on d line) (o_fallback o) (o_join o) _ its); cbn [option_map]; reflexivity.
+    + destruct (fallback_for b (o_fallback o)) as [fb|]; [|reflexivity].
+      rewrite HEP, IH. unfold rep_of. rewrite Hd.
+      destruct (spec_items (split_on d line) (o_fallback o) (o_join o) _ its); cbn [option_map]; reflexivity.
+  - rewrite IH. destruct (spec_items (split_on d line) (o_fallback o) (o_join o) (rep_of o d) its); reflexivity.
+Qed.
+
+(** one record under plain options (no trim, no -s): exactly the requested fields *)
+Theorem general_plain_record o d line :
+  plain_opts o d -> o_trim o = None -> o_only_delimited o = false ->
+  line <> [] -> Forall item_nz (items (o_bounds o)) ->
+  cut_str o line
+  = Some (match spec_items (split_on d line) (o_fallback o) (o_join o) (rep_of o d) (items (o_bounds o)) with
+          | Some x => ROk (x ++ [o_eol o])
+          | None => RErr
+          end).
+Proof.
+  intros Hpl Ht Hs Hl Hnz. pose proof Hpl as [Hd [Hx [Hj [Hb [Hc [Hg Hp]]]]]].
+  unfold cut_str. rewrite Hx, Ht, Hs, Hd, Hb, Hc, Hg, Hp, Hj. cbn [andb orb btype_eqb].
+  destruct line as [|c l]; [contradiction|]. cbv iota.
+  rewrite lit_matches_byte. unfold fields_of_matches.
+  rewrite (out_loop_plain o d (c :: l) (items (o_bounds o)) Hpl Hl Hnz).
+  destruct (spec_items (split_on d (c :: l)) (o_fallback o) (o_join o) (rep_of o d) (items (o_bounds o)));
+    reflexivity.
+Qed.
